@@ -100,6 +100,25 @@ def scenario(world: WorldT) -> None:
                 spa.refresh()
             except Exception:
                 res.probe("refresh_raised")
+        elif op["op"] == "revert":
+            def _refresh_and_wait():
+                n0 = len([w for w in writes if len(w[2]) > 2])
+                spa.refresh()
+                world.wait_until(lambda: len([w for w in writes if len(w[2]) > 2]) > n0, 8.0, step=0.05)
+                world.sleep(0.3)
+            try:
+                _refresh_and_wait()
+                old_word = model.structure.status_block[op["pos"]:op["pos"] + 2]
+                new_word = struct.pack(">H", op["val"]) if struct.pack(">H", op["val"]) != old_word else bytes([old_word[0] ^ 1, old_word[1]])
+                model.structure.replace_status_block_segment(op["pos"], new_word)
+                model.emit_statp([(op["pos"], new_word)])
+                world.sleep(0.5)
+                model.structure.replace_status_block_segment(op["pos"], old_word)        # unreported
+                spa.refresh()
+                world.sleep(2.5)
+                res.probe("refresh_restores_a_value_after_an_unreported_revert")
+            except Exception:
+                res.probe("refresh_raised")
     world.sleep(1.0)
     world.net.healed = True
     world.wait_until(lambda: world.net.in_flight() == 0 and not model._socket._send_handlers and not spa._socket.inbox, 300, step=0.1)
